@@ -161,6 +161,8 @@ def request_for_query(env, compiled):
     text = str(compiled)
     if not encodable(text):
         return None
+    if re.search(r"(?<![0-9.])-0\.0(?![0-9])", text):
+        return None          # negative zero: the model's numbers have one zero
     return {"op": "lex.pstr", "query": {"first": q["first"], "rest": [[op, p] for op, p in q["rest"]]}, "spell": spell_of(env), "uword": uword(text)}
 
 
